@@ -781,7 +781,7 @@ fn hold_model(shape: u8, levels: &[Level]) -> (Vec<[Option<u8>; 2]>, Option<Stri
         let t = l.ty as usize;
         let idx = match (0..scopes.len()).find(|&i| scopes[i][t].is_some()) {
             Some(i) => i,
-            None => return Some("does not exist".into()),
+            None => return Some("[not-found]".into()),
         };
         let mut v = scopes[idx][t].take().unwrap();
         if l.write {
@@ -825,7 +825,7 @@ fn check_holding(shape: u8, levels: &[Level]) -> Option<(String, String)> {
         ["flat", "A-shadowed", "A+B-shadowed", "A-shadowed-below-empty-scope", "A-shadowed-below-B-scope"][shape as usize],
         match (&exp_err, fail) {
             (None, _) => "all-ok".to_string(),
-            (Some(e), _) if e.starts_with("does not") => "inner-type-missing".to_string(),
+            (Some(e), _) if e.starts_with("[not-found]") => "inner-type-missing".to_string(),
             (Some(_), Some(i)) => format!("closure-error@{}", i),
             _ => "error".to_string(),
         }
@@ -845,7 +845,8 @@ fn check_holding(shape: u8, levels: &[Level]) -> Option<(String, String)> {
     match (res, exp_err) {
         (Ok(()), None) => None,
         (Err(e), Some(x)) => {
-            let msg = format!("{:#}", e);
+            // (errors are recognised by their type, closure errors by the marker the harness put in)
+            let msg = crate::model::program::error_text(&e);
             if msg.contains(&x) {
                 None
             } else {
